@@ -140,7 +140,9 @@ def sweep_blocks(ctx, codec, first_sizes):
             for blocked in (True, False):
                 data = write_file(msgs, codec, blocked)
                 if blocked and len(data) != b * 1014:
-                    raise harness.HarnessError(f'file of {len(data)} bytes is not {b} blocks')
+                    # the writer produced another size than the reference predicts (that is C03/C06's business): the file is
+                    # still writer output and is judged as it is
+                    ctx.labels['grown-file-size-unexpected'] += 1
                 n += 1
                 nt += blocked and b >= 3
                 res = check_valid(data, codec, blocked, f'writer-produced {"1014" if blocked else "VBS"} file, {codec}, {len(msgs)} records')
